@@ -284,7 +284,7 @@ fn calculate_selection<'a>(
                             field_type: options
                                 .normalization()
                                 .field_type(&context.schema().get_enum(enm).name),
-                            field_type_qualifiers: &schema_field.r#type.qualifiers,
+                            field_type_qualifiers: field.response_type_qualifiers(context.schema()),
                             flatten: false,
                             deprecation: schema_field.deprecation(),
                             boxed: false,
@@ -295,10 +295,7 @@ fn calculate_selection<'a>(
                             field_type: options
                                 .normalization()
                                 .field_type(context.schema().get_scalar(scalar).name.as_str()),
-                            field_type_qualifiers: &field
-                                .schema_field(context.schema())
-                                .r#type
-                                .qualifiers,
+                            field_type_qualifiers: field.response_type_qualifiers(context.schema()),
                             graphql_name: Some(graphql_name),
                             struct_id,
                             rust_name,
@@ -314,7 +311,7 @@ fn calculate_selection<'a>(
                             struct_id,
                             graphql_name: Some(graphql_name),
                             rust_name,
-                            field_type_qualifiers: &schema_field.r#type.qualifiers,
+                            field_type_qualifiers: field.response_type_qualifiers(context.schema()),
                             field_type: Cow::Owned(struct_name_string.clone()),
                             flatten: false,
                             boxed: false,
